@@ -98,6 +98,9 @@ func c15case(c *Ctx, g *msgGen) (string, string, string, string) {
 		step = len(enc)/350 + 1
 	}
 	for cut := 0; cut < len(enc); cut += step {
+		if step > 1 && cut+step >= len(enc)-48 {
+			step = 1 // the tail byte by byte: a field that ends the message ends here
+		}
 		m := &client.Message{}
 		var err error
 		if p := guard(func() { err = m.Deserialize(bytes.NewReader(enc[:cut])) }); p != "" {
@@ -114,7 +117,7 @@ func init() {
 	real := []string{"pkg/client Message.Serialize / Deserialize and all 37 payload (de)serializers", "internal/storage.SaveTxState / FetchTxState (stored client.Tx record)"}
 	stub := []string{"reader (fragmenting / truncating sim stream)", "disk (simdisk)"}
 	Register(&Check{Prop: "C15", Sub: "roundtrip-stream", Weight: 6, Real: real, Stub: stub,
-		Rule: "sequences of 1-6 messages over all 37 types with generated field values (empty and long lists, nil vs present optional hash / merkle proof, integers at every varint width, scripts up to 70 kB) concatenated and decoded through a reader that returns tape-sized fragments (a quarter of the cases byte by byte); one message per case is also decoded from every strict prefix (every 1st..nth byte for encodings over 700 bytes); non-trivial = every case.",
+		Rule: "sequences of 1-6 messages over all 37 types with generated field values (empty and long lists, nil vs present optional hash / merkle proof, integers at every varint width, scripts up to 70 kB) concatenated and decoded through a reader that returns tape-sized fragments (a quarter of the cases byte by byte); one message per case is also decoded from every strict prefix (about 350 evenly spaced cuts plus the last 48 bytes one by one for encodings over 700 bytes); non-trivial = every case.",
 		Run: func(c *Ctx) {
 			g := newMsgGen(c.Scen)
 			cases := 120
